@@ -781,7 +781,10 @@ func (node *Show) Format(buf *TrackedBuffer) {
 }
 
 func (node *Show) walkSubtree(visit Visit) error {
-	return nil
+	if node == nil || node.ShowTablesOpt == nil || node.ShowTablesOpt.Filter == nil {
+		return nil
+	}
+	return Walk(visit, node.ShowTablesOpt.Filter)
 }
 
 // Format formats the node.
